@@ -126,7 +126,7 @@ func c04Run(c lib.Case, env *lib.Env) lib.Result {
 	}
 	var sp *lib.ShortReadPool
 	dr, err := lib.DiffDirs(oldDir, newDir, s.Comp, func(p lake.Pool) lake.Pool {
-		sp = &lib.ShortReadPool{Inner: p, Rng: lib.NewRng(lib.Mix(s.BuildSeed, 44)), Yield: s.Yield}
+		sp = &lib.ShortReadPool{Inner: p, Rng: lib.NewRng(lib.Mix(s.BuildSeed, 44)), Yield: s.Yield, EOFWithData: c.ID%3 == 1}
 		return sp
 	}, nil, nil)
 	if err != nil {
